@@ -5,7 +5,7 @@ ids="$@"
 [ -z "$ids" ] && ids=$(python3 -c "import json; print(' '.join(c['property_id'] for c in json.load(open('MANIFEST.json'))['checks']))")
 mkdir -p work
 for id in $ids; do
-  s=$(date +%s); timeout 7200 ./check $id --tier thorough > work/thorough_$id.log 2>&1; rc=$?; e=$(date +%s)
+  s=$(date +%s); timeout ${THOROUGH_TIMEOUT:-2700} ./check $id --tier thorough > work/thorough_$id.log 2>&1; rc=$?; e=$(date +%s)
   echo "$id rc=$rc $((e-s))s $(grep '^check ' work/thorough_$id.log | tail -1)"
   grep -h "status=\|INCOMPLETE\|PROBLEM" work/thorough_$id.log | cut -c1-220 | sed 's/^/    /'
 done
